@@ -1059,7 +1059,7 @@ def _run(ctx):
     nscen = ctx.n(2, 8)
     for si in range(nscen):
         scenario(r, si)
-        if ctx.tier == "quick" and not ctx.search and ctx.elapsed() > 25:
+        if ctx.tier == "quick" and not ctx.search and ctx.elapsed() > 15:
             break
     # every entry of the regenerated table was exercised (URIHandler creates unlinked objects: no authority involved;
     # FileNodeDownloadHandler is only reachable with GET/HEAD)
